@@ -529,8 +529,12 @@ fn draw_rows(rng: &mut Rng, nmax: usize) -> (Vec<Vec<f64>>, &'static str) {
         "duplicate-heavy"
     } else if r < 0.84 {
         "clustered"
-    } else if r < 0.92 {
+    } else if r < 0.90 {
         "near-duplicate"
+    } else if r < 0.93 {
+        "resonant-with-base-1.3"
+    } else if r < 0.95 {
+        "one-decimal"
     } else {
         "binary"
     };
@@ -591,6 +595,24 @@ fn draw_rows(rng: &mut Rng, nmax: usize) -> (Vec<Vec<f64>>, &'static str) {
                 })
                 .collect()
         }
+        // distances from the first row that sit on, or a few ulps beside, an integer power of 1.3 (the ratio between
+        // the levels of the cover tree): points exactly on the edge of a level
+        "resonant-with-base-1.3" => {
+            let p0: Vec<f64> = if rng.bool(0.5) { vec![0.0; d] } else { (0..d).map(|_| rng.int(-20, 20) as f64 / 10.0).collect() };
+            let s0 = rng.int(-12, 20);
+            let mut rows = vec![p0.clone()];
+            for _ in 1..n {
+                let s = s0 - rng.int(0, 5);
+                let r = 1.3f64.powi(s as i32) * (1.0 + rng.int(-3, 6) as f64 * f64::EPSILON);
+                let j = rng.below(d);
+                let mut q = p0.clone();
+                q[j] += if rng.bool(0.5) { r } else { -r };
+                rows.push(q);
+            }
+            rows
+        }
+        // coordinates with one decimal digit: differences such as 3.6 - 2.3 = 1.3000000000000003
+        "one-decimal" => (0..n).map(|_| (0..d).map(|_| rng.int(-60, 60) as f64 / 10.0).collect()).collect(),
         _ => (0..n).map(|_| (0..d).map(|_| rng.int(0, 1) as f64).collect()).collect(),
     };
     debug_assert_eq!(rows.len(), n);
